@@ -235,6 +235,20 @@ fn construct_all(bs: &[u8], rep: &mut Report) -> Option<ByteString> {
     let r0 = ByteString::try_from(bs).ok();
     let mut results = vec![("&[u8]", r0.clone())];
     results.push(("Vec<u8>", ByteString::try_from(bs.to_vec()).ok()));
+    // the same bytes in allocations with spare capacity (a read buffer): validation must not depend on it
+    for spare in [1usize, 8, 64, 4096] {
+        let mut v = Vec::with_capacity(bs.len() * 2 + spare);
+        v.extend_from_slice(bs);
+        results.push(("Vec<u8> with spare capacity", ByteString::try_from(v).ok()));
+    }
+    let mut bm = BytesMut::with_capacity(bs.len() * 3 + 64);
+    bm.extend_from_slice(bs);
+    results.push(("BytesMut with spare capacity", ByteString::try_from(bm).ok()));
+    // a view into a larger shared buffer
+    let mut big = vec![0xffu8; 3];
+    big.extend_from_slice(bs);
+    big.extend_from_slice(&[0x80, 0xff]);
+    results.push(("Bytes slice of a larger buffer", ByteString::try_from(Bytes::from(big).slice(3..3 + bs.len())).ok()));
     results.push(("Bytes", ByteString::try_from(Bytes::copy_from_slice(bs)).ok()));
     results.push(("BytesMut", ByteString::try_from(BytesMut::from(bs)).ok()));
     macro_rules! arr {
